@@ -4,6 +4,7 @@ import (
 	"fmt"
 	"math/rand"
 	"runtime"
+	"strings"
 	"sync"
 	"sync/atomic"
 
@@ -245,8 +246,16 @@ func runStress(cfg stressCfg) (res stressResult) {
 	// Wait structurally (not on a WaitGroup: a submitter parked for ever inside
 	// Submit must not put the harness' main goroutine to sleep as well):
 	// everything that can still happen happens before quiescence.
-	gdump.WaitQuiescent()
+	gs0 := gdump.WaitQuiescent()
 	stuckSubs := subsLeft.Load()
+	stuckWhere := ""
+	if stuckSubs > 0 {
+		for _, g := range gs0 {
+			if !before[g.ID] && g.Has("workerpool.(*WorkerPool).Submit") && !g.Has("workerpool.(*Task).run") {
+				stuckWhere += fmt.Sprintf("[%s: %s] ", g.State, strings.Join(g.Frames[:min(5, len(g.Frames))], " < "))
+			}
+		}
+	}
 	subsDone.Store(true)
 	gdump.WaitQuiescent()
 	stuckPool := -1
@@ -327,7 +336,7 @@ func runStress(cfg stressCfg) (res stressResult) {
 		res.Findings = append(res.Findings, classify(o)...)
 	}
 	if stuckSubs > 0 && len(res.Findings) == 0 {
-		res.Findings = append(res.Findings, finding{"submit-never-returns", fmt.Sprintf("%d submitter goroutine(s) are parked for ever inside Submit at structural quiescence", stuckSubs)})
+		res.Findings = append(res.Findings, finding{"submit-never-returns", fmt.Sprintf("%d submitter goroutine(s) are parked for ever inside Submit at structural quiescence: %s", stuckSubs, stuckWhere)})
 	}
 	if root != nil && len(res.Findings) == 0 {
 		// all pools idle and terminated: the group waiter must have come back
